@@ -69,7 +69,7 @@ func RunC02(k *fw.Case) {
 	}
 	rb, err := compile(fxG, text.String())
 	if err != nil {
-		k.Inconclusive("generated statement text does not compile: " + trunc(err.Error(), 300) + " text: " + trunc(text.String(), 600))
+		noCompile(k, "statement", err, text.String())
 		return
 	}
 	res, eerr, pan := execSort(rb)
